@@ -458,7 +458,10 @@ func (e *Engine) sample(rng *rand.Rand, in Input, all []Input, i int, sched bool
 		Stats: true,
 	}
 	// the working directory: empty, or a user's package directory with look-alike imports
-	sc.Input.Dir = e.cwdDir([]string{"empty", "empty", "project"}[rng.Intn(3)])
+	// (an input that names its own working directory - C14's directives, whose spec paths are relative to it - keeps it)
+	if sc.Input.Dir == "" {
+		sc.Input.Dir = e.cwdDir([]string{"empty", "empty", "project"}[rng.Intn(3)])
+	}
 	// order policy: mostly one policy everywhere; sometimes a mixture per site
 	// never the native order at ogen's own sites: it adds nothing (map orders inside dependencies are native in
 	// every run anyway) and a failure found with it could not be replayed or attributed
@@ -507,7 +510,9 @@ func (e *Engine) sample(rng *rand.Rand, in Input, all []Input, i int, sched bool
 				}
 				h.Input = o.In
 			}
-			h.Input.Dir = e.cwdDir([]string{"empty", "project"}[rng.Intn(2)])
+			if h.Input.Dir == "" {
+				h.Input.Dir = e.cwdDir([]string{"empty", "project"}[rng.Intn(2)])
+			}
 			sc.History = append(sc.History, h)
 		}
 	}
@@ -671,7 +676,9 @@ func (e *Engine) minimise(sc Scenario, ref Result, oracle string, hints [][]stri
 		}
 	}
 	try(func(x *Scenario) { x.History = nil })
-	try(func(x *Scenario) { x.Input.Dir = e.cwdDir("empty") })
+	if strings.Contains(cur.Input.Dir, "/cwd/") {
+		try(func(x *Scenario) { x.Input.Dir = e.cwdDir("empty") })
+	}
 	for len(cur.History) > 1 {
 		before := len(cur.History)
 		try(func(x *Scenario) { x.History = x.History[1:] })
@@ -945,7 +952,9 @@ func (e *Engine) Check(c *core.Ctx, filter func(Input) bool) (*core.Outcome, err
 	refScs := make([]Scenario, len(corpus))
 	for i, in := range corpus {
 		refScs[i] = reference(in)
-		refScs[i].Input.Dir = e.cwdDir("empty")
+		if refScs[i].Input.Dir == "" {
+			refScs[i].Input.Dir = e.cwdDir("empty")
+		}
 	}
 	refs, err := e.RunAll(e.Plain, refScs, 1, c.Jobs)
 	if err != nil {
@@ -1342,7 +1351,9 @@ func (e *Engine) replay(c *core.Ctx) (*core.Outcome, error) {
 	}
 	in := Input{Name: "replay", In: sc.Input}
 	refSc := reference(in)
-	refSc.Input.Dir = e.cwdDir("empty")
+	if refSc.Input.Dir == "" {
+		refSc.Input.Dir = e.cwdDir("empty")
+	}
 	refs, err := e.RunJob(e.Plain, []Scenario{refSc}, 20*time.Minute)
 	if err != nil {
 		return nil, err
